@@ -83,7 +83,8 @@ def run_compiled(ctx, n):
         salt = gen.lit_str(rng.choice(["", "s", "exp-1"]), quote='"') if rng.random() < 0.6 else None
         prog = gen.Program("e", salt, rng.choice([["uid"], ["uid"], ["uid", "uid"], ["uid", "uid", "uid"]]), ("ret", groups), {"uid": "any"})
         text = gen.render(prog)
-        envs = [{"uid": rng.choice([rng.randrange(10 ** 9), "user_%d" % rng.randrange(10 ** 6)])} for _ in range(4)]
+        envs = [{"uid": rng.choice([rng.randrange(10 ** 9), "user_%d" % rng.randrange(10 ** 6), "Jos\u00e9%d" % rng.randrange(99), "\u00fcser\u00a0%d" % rng.randrange(99),
+                                    "\u00ff", "\u4e2d%d" % rng.randrange(9), "\U0001d400"])} for _ in range(5)]
         envs.append({"uid": ""})          # with no salt the key is the empty string: still a key
         cases.append({"prog": prog, "text": text, "envs": envs})
     for _ in range(max(2, n // 20)):
